@@ -44,6 +44,13 @@ For every public decoder `D` (table below, one block per kind):
   every input. `Documented` excludes `Err.fuel` by definition.
 
 `Rejected x := ∃ e, x = error e ∧ e.documented`.
+
+Blocks: space packet / parser; PUS TC, TM, service 17; request id, packet field, service 1, tracker;
+CDS time; CFDP header, `verify_length_and_checksum`, decoder fronts; LV / TLV / concrete TLVs /
+holder; byte fields; USLP; (stage 2) file-directive base, the eight PDU decoders, factory and
+inspectors, reserved CFDP messages. Adding a kind = one `C10_<D>` line citing the owner's
+`*_documented` lemma and one `C10_<D>_prefix` line (from the owner's `*_truncated` lemma, or from
+`Robust.prefix_rejected` with the owner's accept-soundness and append-stability lemmas).
 -/
 namespace SpVerif.Props.C10
 open SpVerif SpVerif.Robust
@@ -111,6 +118,24 @@ section Pus
 open SpVerif.SpacePacket SpVerif.PusTc SpVerif.PusTm
 
 theorem C10_tc (d : Bytes) : Documented (Tc.unpack d) := C02.C02_documented d
+
+/-- the secondary-header decoders are public classes of their own (`PusTcDataFieldHeader.unpack`,
+    `PusTmSecondaryHeader.unpack`) -/
+theorem C10_tc_sec (d : Bytes) : Documented (TcSec.unpack d) := C02.sec_unpack_documented d
+
+theorem C10_tm_sec (d : Bytes) (tsLen : Nat) : Documented (TmSec.unpack d tsLen) := C03.sec_unpack_documented d tsLen
+
+/-- fewer than five octets (TC data field header) are rejected -/
+theorem C10_tc_sec_prefix (d : Bytes) (h : d.length < 5) : Rejected (TcSec.unpack d) := by
+  refine .of_err (e := .value) ?_ rfl
+  simp [TcSec.unpack, h, throw, throwThe, MonadExceptOf.throw, bind, Except.bind]
+
+/-- fewer than seven octets (fixed part of the TM secondary header) are rejected; the timestamp
+    behind them is a clamped slice (`data[7 : 7 + timestamp_len]`), so the header with its
+    timestamp is not self-delimiting on its own — inside `PusTm.unpack` the packet length guards it -/
+theorem C10_tm_sec_prefix (d : Bytes) (tsLen : Nat) (h : d.length < 7) : Rejected (TmSec.unpack d tsLen) := by
+  refine .of_err (e := .value) ?_ rfl
+  simp [TmSec.unpack, h, throw, throwThe, MonadExceptOf.throw, bind, Except.bind]
 
 theorem C10_tc_prefix (t : Tc) (wf : C02.WF t) (k : Nat) (hk : k < (C02.Spec.octets t).length) :
     Rejected (Tc.unpack ((C02.Spec.octets t).take k)) := by
@@ -743,5 +768,48 @@ theorem C10_reserved_prefix (v : Bytes) (wf : C08.WFValue v) (k : Nat) (hk : k <
   exact ⟨e, by rw [he]; rfl, hd⟩
 
 end Reserved
+
+/-! ## non-vacuity: concrete members of the domains the prefix clauses quantify over, and concrete verdicts -/
+section Examples
+open SpVerif.SpacePacket SpVerif.PusTc SpVerif.PusTm SpVerif.Lv SpVerif.Tlv SpVerif.Uslp
+
+private def verdictIs {α : Type} (x : Py α) (e : Option Err) : Bool :=
+  match x, e with
+  | .ok _, none => true
+  | .error a, some b => decide (a = b)
+  | _, _ => false
+
+-- a valid telecommand (C02 domain) and a valid telemetry packet with a 3-octet timestamp (C03 domain)
+example : C02.WF ⟨⟨0, 1, 1, 0x7FF, 3, 16383, 8⟩, ⟨0b1010, 17, 1, 0xBEEF⟩, [1, 2]⟩ := by
+  refine ⟨by decide, ?_, by decide⟩
+  unfold C02.WFSec; decide
+example : C03.WF ⟨⟨5, 0, 1, 0x7FF, 3, 16383, 13⟩, ⟨9, 17, 2, 0xABCD, 0xBEEF, [1, 2, 3]⟩, [7, 8]⟩ := by
+  refine ⟨by decide, ?_, by decide⟩
+  unfold C03.WFSec; decide
+-- the prefix clause is about non-empty sets of prefixes: the packed telecommand has 15 octets
+example : (C02.Spec.octets ⟨⟨0, 1, 1, 0x7FF, 3, 16383, 8⟩, ⟨0b1010, 17, 1, 0xBEEF⟩, [1, 2]⟩).length = 15 := by
+  simp [C02.Spec.octets, C02.Spec.body, C02.Spec.sec, C01.Spec.octets, Crc.crcTrailer, Crc.be16]
+-- LV / TLV / frame domains
+example : C08.WFValue [1, 2, 3] ∧ C08.WFType 6 ∧ C08.Spec.tlv 6 [1, 2, 3] = [6, 3, 1, 2, 3] := by decide
+example : verdictIs (CfdpTlv.unpack [6, 3, 1, 2, 3]) none = true ∧
+    verdictIs (CfdpTlv.unpack [6, 3, 1, 2]) (some .value) = true ∧
+    verdictIs (CfdpTlv.unpack [6]) (some .value) = true ∧ verdictIs (CfdpLv.unpack []) (some .value) = true := by
+  decide
+example : verdictIs (EntityIdTlv.unpack [5, 1, 7]) (some .tlvType) = true ∧
+    verdictIs (FaultHandlerOverrideTlv.unpack [4, 0]) (some .value) = true := by decide
+example : verdictIs (Sph.unpack [0x18, 0x01, 0xC0, 0x00, 0x00]) (some .value) = true ∧
+    verdictIs (Sph.unpack [0x18, 0x01, 0xC0, 0x00, 0x00, 0x00]) none = true := by decide
+example : verdictIs (CfdpHeader.PduHeader.unpack [0x00, 0, 0, 0x11, 1, 2, 3]) (some .cfdpVersion) = true ∧
+    verdictIs (CfdpHeader.headerLenFromRaw [0x20, 0, 0]) (some .value) = true ∧
+    verdictIs (Factory.pduType []) (some .value) = true := by decide
+example : verdictIs (PrimaryHeader.unpack [0xC0, 0, 0, 0, 0, 0]).toPy (some .uslp) = true ∧
+    verdictIs (headerIsTruncated [0xC0, 0, 0]).toPy (some .value) = true ∧
+    verdictIs (Tfdf.unpack [0x00, 1] false 2 (some .fixed)).toPy (some .uslp) = true := by decide
+-- the stream parser keeps a strict prefix of a registered packet (nothing returned, nothing lost)
+example : Parser.scan [0x0923] [0x09, 0x23, 0xC0, 0x01, 0x00, 0x01, 0xAA] = ([], [0x09, 0x23, 0xC0, 0x01, 0x00, 0x01, 0xAA]) := by
+  decide +kernel
+example : C13.WFPacket [0x0923] [0x09, 0x23, 0xC0, 0x01, 0x00, 0x01, 0xAA, 0xBB] := by decide +kernel
+
+end Examples
 
 end SpVerif.Props.C10
